@@ -159,8 +159,14 @@ Inductive nval := NP (t : tens) | NW (v : tens) (w : option tens) | NBad.
 
 Definition oor {A} (a b : option A) : option A := match a with Some _ => a | None => b end.
 
-(** [_select(mask, old, cur)], state.py:44-56, for a given selection of tensors *)
-Definition nselect_with (wh : nmask -> tens -> tens -> option tens) (one_sided : bool)
+(** [torch.ones_like(w)]: the weight that stands for a side WITHOUT weights since the repair of [_select] ("a side that carries no weights
+    is fully weighted") *)
+Definition ones_like (w : tens) : tens := tmap (fun _ => AFin 1%Z) w.
+
+(** [_select(mask, old, cur)], state.py:44-57, for a given selection of tensors [wh] and a given rule [fill] for the weight of a side that
+    has none, computed from the OTHER side's weight: [ones_like] (the code as it is) or the identity (the code before the repair:
+    [old_wgt = old_w.weight if old_w.weight is not None else cur_w.weight]).  [one_sided = false] refuses pairs of different kinds. *)
+Definition nselect_with (wh : nmask -> tens -> tens -> option tens) (one_sided : bool) (fill : tens -> tens)
                         (mk : nmask) (old cur : nval) : option nval :=
   match old, cur with
   | NP o, NP c => option_map NP (wh mk o c)
@@ -176,7 +182,7 @@ Definition nselect_with (wh : nmask -> tens -> tens -> option tens) (one_sided :
         match wh mk ov cv with
         | None => None
         | Some v =>
-            match oor ow cw, oor cw ow with
+            match oor ow (option_map fill cw), oor cw (option_map fill ow) with
             | Some ow', Some cw' => match wh mk ow' cw' with Some w => Some (NW v (Some w)) | None => None end
             | _, _ => Some (NW v None)
             end
@@ -185,9 +191,15 @@ Definition nselect_with (wh : nmask -> tens -> tens -> option tens) (one_sided :
   end.
 
 (** what the code does *)
-Definition nselect_torch : nmask -> nval -> nval -> option nval := nselect_with twhere_torch true.
-(** its restriction to the contract: the [mix] of the State instance *)
-Definition nselect : nmask -> nval -> nval -> option nval := nselect_with twhere false.
+Definition nselect_torch : nmask -> nval -> nval -> option nval := nselect_with twhere_torch true ones_like.
+(** its restriction to the contract (same shapes, one mask entry per index of the axis the mask is aligned on): the [mix] of the State
+    instance; the two sides may be of different kinds *)
+Definition nselect : nmask -> nval -> nval -> option nval := nselect_with twhere true ones_like.
+
+(** the code BEFORE the repair: a side without weight takes the OTHER side's weight; its contract-restricted form had to exclude pairs of
+    different kinds ([F_mix] is false for them: [one_sided_weight_old_refuted]) *)
+Definition nselect_torch_old : nmask -> nval -> nval -> option nval := nselect_with twhere_torch true (fun w => w).
+Definition nselect_old : nmask -> nval -> nval -> option nval := nselect_with twhere false (fun w => w).
 
 (** NOT the code (kept for the discriminating examples): values selected, the weight taken from ONE side for all rows *)
 Definition nselect_old_weight (mk : nmask) (old cur : nval) : option nval :=
@@ -231,6 +243,7 @@ Definition nput (ix : option nat) (v : nval) (acc : bool) (old : nval) : option 
 
 Definition nsem : sem nval nmask nat := mkSem nput nselect.
 Definition nsem_torch : sem nval nmask nat := mkSem nput nselect_torch.
+Definition nsem_torch_old : sem nval nmask nat := mkSem nput nselect_torch_old.
 Definition nsem_old_weight : sem nval nmask nat := mkSem nput nselect_old_weight.
 Definition nsem_wrong_side : sem nval nmask nat := mkSem nput nselect_wrong_side.
 
@@ -361,6 +374,16 @@ Definition check_nselect (c : nmask * nval * nval * option nval * bool) : bool :
        end
   end.
 
+(** the same against the code BEFORE the repair of [_select] (the tree under test is recognised on every run) *)
+Definition check_nselect_old (c : nmask * nval * nval * option nval * bool) : bool :=
+  match c with (mk, old, cur, observed, expect_contract) =>
+    onval_eqb (nselect_torch_old mk old cur) observed
+    && match nselect_old mk old cur with
+       | Some x => expect_contract && onval_eqb (Some x) observed
+       | None => negb expect_contract
+       end
+  end.
+
 (** * the class for which [F_mix] is proved: every derived node carrying the individual axis has an ENTRY-WISE function —
       an affine map of ANY number of plain parents, log2, the weighted one-parent maps, the two-parent [DWAdd] *)
 Definition entrywise_fun (f : dfun) (n_parents : nat) : bool :=
@@ -389,10 +412,24 @@ Definition rows_from (m : list bool) (o c t : tens) : Prop :=
   length (rows t) = length m /\
   forall j b, nth_error m j = Some b -> nth_error (rows t) j = (if b then nth_error (rows o) j else nth_error (rows c) j).
 
+Definition nvalue (v : nval) : option tens := match v with NP t => Some t | NW t _ => Some t | NBad => None end.
+
+(** the weight of one side of a selection: its own, or — since a side without weights is fully weighted — ones of the other side's weight *)
+Definition eff_weight (v other : nval) : option tens :=
+  match v with
+  | NW _ (Some w) => Some w
+  | NBad => None
+  | _ => match other with NW _ (Some w') => Some (ones_like w') | _ => None end
+  end.
+
 Definition rows_selected (m : list bool) (old cur r : nval) : Prop :=
-  match old, cur, r with
-  | NP o, NP c, NP t => rows_from m o c t
-  | NW ov (Some ow), NW cv (Some cw), NW rv (Some rw) => rows_from m ov cv rv /\ rows_from m ow cw rw
-  | NW ov None, NW cv None, NW rv None => rows_from m ov cv rv
+  match nvalue old, nvalue cur, nvalue r with
+  | Some o, Some c, Some t => rows_from m o c t
+  | _, _, _ => False
+  end /\
+  match eff_weight old cur, eff_weight cur old, r with
+  | Some ow, Some cw, NW _ (Some rw) => rows_from m ow cw rw
+  | None, None, NP _ => exists o c, old = NP o /\ cur = NP c
+  | None, None, NW _ None => True
   | _, _, _ => False
   end.
